@@ -71,7 +71,7 @@ class RestartInjector(_Base):
             seen[tag] = True
             box['attempts'][key] = n + 1
             act = box['script'].get((key, n)) or box['script'].get(('*', key, n))
-            box.setdefault('log', []).append(dict(time=S.time, slot=S.status.slot, attempt=n, inject=bool(act), dt=S.dt))
+            box.setdefault('log', []).append(dict(time=S.time, slot=S.status.slot, attempt=n, inject=bool(act), dt=S.dt, block=box.get('block', 0)))
             if act:
                 S.status.restart = True
                 f = act.get('dt_factor')
@@ -108,7 +108,7 @@ def make_probe(order, name=None):
             self.params.box.setdefault('probe', []).append(
                 dict(order=order, phase=phase, slot=S.status.slot, iter=S.status.iter, time=L.time, dt=L.params.dt, dt_new=L.status.get('dt_new'),
                      restart=S.status.get('restart'), done=S.status.done, force_done=S.status.force_done, err=L.status.get('error_embedded_estimate'),
-                     restarts_in_a_row=S.status.get('restarts_in_a_row'), residual=L.status.residual)
+                     restarts_in_a_row=S.status.get('restarts_in_a_row'), residual=L.status.residual, block=self.params.box.get('block'))
             )
 
         def get_new_step_size(self, controller, S, **kwargs):
